@@ -566,8 +566,14 @@ def _alphabet_B(t, h):
 
 
 def _copy_spec(sdbs):
-    import copy
-    return copy.deepcopy(sdbs)
+    out = []
+    for s in sdbs:
+        n = SpecDb()
+        n.cats = [[c[0], c[1]] for c in s.cats]      # the dicts themselves are never mutated in place
+        n.unk = list(s.unk)
+        n.frozen, n.counter = s.frozen, s.counter
+        out.append(n)
+    return out
 
 
 def _enumerate(alpha, L, targets, prefix_ops):
